@@ -59,6 +59,29 @@ CLAIMS = {
          "kinds plus 40k random multi-task interleavings; full trace compared with the model and judged by the extracted predicate raw_ok. "
          "PARTIAL: 'is not still running when unsubscribe() returns' across threads is not modelled (single-threaded polls only); the real "
          "LocalPool/ThreadPool are represented by the choice of poll labels.", "DESIGN.md section 5 C19"),
+ "C07": ("Theorems (for every order and timing of polls, clock advances and cancellations): every notification relayed by delay / "
+         "observe_on / delay_subscription / subscribe_on travels in its own one-shot task, which runs at most once (C07_at_most_once), never "
+         "before production time + delay (C07_never_early) and never after unsubscribe (C07_not_after_unsubscribe). The operator-level statement "
+         "(each delivery is the polled task's own notification, in task order under a FIFO executor, errors forwarded at once by delay) is "
+         "evaluated by the extracted predicates relay_ok / passthru_ok on every implementation trace and every model trace and by full-trace "
+         "equality with the timed model: all label sequences <= 4 plus 4k random ones per operator and form on the crate's hook scheduler with "
+         "a virtual clock, and the _at forms' requested durations. PARTIAL: relay_ok is not yet proved of the model for all label sequences "
+         "(it is for C08's predicates); order preservation is NOT claimed for executors that run ready tasks out of order (it does not hold: "
+         "each notification is an independent task); the real ThreadPool is not run.", "DESIGN.md section 5 C07"),
+ "C08": ("Theorems over EVERY label sequence (polls of any task at any time, clock advances of any size, unsubscribe, downstream finishing): "
+         "C08_interval / C08_interval_at (consecutive integers, first not before one period / the given instant, later ones at least one period "
+         "apart, never after unsubscribe), C08_interval_prompt (exactly one period apart when polled as the timer falls due), C08_timer (the item "
+         "once, not before the due time, then completion), C08_async_prefix / C08_async_complete / C08_async_silent_after_unsub (from_future / "
+         "from_stream and the _result forms relay exactly what the scripted future / stream yields, then terminate). These predicates are proved "
+         "of the timed model by simulation and evaluated on every implementation trace; full traces are compared with the model on 390k cases.",
+         "DESIGN.md section 5 C08"),
+ "C09": ("Theorems (every order and timing of polls): a debounce / throttle window task fires at most once, never before the window has "
+         "elapsed, never once cancelled; buffer_with_time flushes are at least a window apart. The operator-level statement (outputs are a "
+         "sub-sequence of the input: no invented, duplicated or reordered item; buffers non-empty, within the count limit, their concatenation "
+         "a prefix of the input and the whole input on completion) is evaluated by the extracted predicates subseq_ok / buffers_ok on every "
+         "implementation and model trace, and by full-trace equality with the timed model (debounce, throttle x 3 edges, buffer_with_time, "
+         "buffer_with_count_and_time; all label sequences <= 4 plus random ones with gaps <, =, > the window). PARTIAL: subseq_ok / buffers_ok "
+         "are not yet proved of the model for all label sequences; sample(notifier) is decided under C04.", "DESIGN.md section 5 C09"),
 }
 
 checks = []
